@@ -130,6 +130,7 @@ func loadWorld(repo, goos, goarch string) *World {
 	if w.Mpb == nil || w.Decor == nil || w.Cw == nil || w.Intern == nil {
 		broken("module packages not all built")
 	}
+	registerPayloadShapes(w.Mpb)
 	w.buildCallGraph()
 	return w
 }
